@@ -421,8 +421,9 @@ def run(rep, tier, seed, only=None):
         tier, __import__("z3").get_version_string())
     kr = kern_run.KernRun(rep, "C08", K, tier, seed, override=OVERRIDE)
     kr.lowering_evidence([EST])
-    low = kr.eng.lows[EST]
-    targets = [(EST, fn) for fn in low.funcs if fn != "set_num_threads"]
+    # estimator.pyx outside the lowering subset: no targets; kr.run reports its ledger obligations as undecided
+    low = kr.eng.lows.get(EST)
+    targets = [(EST, fn) for fn in low.funcs if fn != "set_num_threads"] if low is not None else []
     if not only or "bounded" not in only:
         kr.run(targets, kern_run.FUNCTIONAL_KINDS | {"nan", "div", "canary"}, only=only)
     if not only or "bounded" in only:
